@@ -415,4 +415,78 @@ def runHist {V R : Type} (w : World V) (f : V → Int → R) (cross : V → Int 
   | [] => s
   | c :: r => runHist w f cross fuel (exec (R := R) w f cross fuel s c).1 r
 
+/-! ### suspended iterations: generators created by `Orbit.iter`, advanced later, other calls in between
+
+`Orbit.iter(**kw)` binds the propagator AT ONCE (`if self.propagator.orbit is not self: self.propagator.orbit = self`) and
+returns a generator whose body has not started. On its first `next` the generator computes its dates (`start` defaults to
+`self.orbit.date` of the orbit bound to the propagator THEN); an analytical propagator then reads `self.orbit` again at every
+date (`self.propagate(date)`), the numerical one integrates everything at the first `next` from the orbit bound then.
+Orbit objects are numbered; `propOf o` is the propagator OBJECT orbit `o` holds (several orbits may hold the same one: assigned
+by the user, or points handed out with a shared copy). Orbit values do not change in this layer; a state is named by the orbit
+object whose trajectory it lies on. A `DateRange` passed as `dates=` is an immutable description (`DateRange.__iter__` is a
+generator function: every consumer gets a cursor of its own — read from the source on every run). -/
+
+structure Iterator where
+  prop : Nat                       -- the propagator object the generator runs on
+  recv : Nat                       -- the orbit object `iter` was called on
+  args : Args
+  started : Bool := false
+  remaining : List Int := []       -- dates still to come (fixed at the first `next`)
+  fin : Fin := .done
+  locked : Option Nat := none      -- numerical propagator: the orbit it integrated from at the first `next`
+
+structure IWorld where
+  kind : Kind
+  propOf : Nat → Nat
+  epoch : Nat → Int
+  h : Int := 60000000
+  rs : Nat → Int := fun _ => h
+  order : Nat := 8
+
+structure ISt where
+  bound : Nat → Option Nat := fun _ => none       -- per propagator object: the orbit object bound to it
+  its : Nat → Option Iterator := fun _ => none    -- the generators created so far
+  n : Nat := 0
+
+inductive IOp
+  | create (o : Nat) (a : Args)          -- `g = orbit_o.iter(**a)` (generator number = order of creation)
+  | advance (it k : Nat)                 -- `next(g)` k times (fewer when it ends)
+  | propagate (o : Nat) (d : Int)        -- `orbit_o.propagate(d)`
+deriving Repr
+
+/-- the dates of an iteration whose generator starts while orbit `src` is bound -/
+def iterDates (w : IWorld) (fuel : Nat) (src : Nat) (a : Args) : Run :=
+  match w.kind with
+  | .num => (numIter fuel w.order (w.epoch src) w.h w.rs true a false).2
+  | _ => (analyticalIter fuel (w.epoch src) none a).2
+
+def setBound (s : ISt) (p o : Nat) : ISt := { s with bound := fun q => if q = p then some o else s.bound q }
+
+/-- one operation: the new state, the dates it returned with the orbit whose trajectory each state lies on, how it ended
+(`fuel` = the generator is still suspended) -/
+def istep (w : IWorld) (fuel : Nat) (s : ISt) : IOp → ISt × List (Int × Nat) × Fin
+  | .create o a =>
+    let s1 := setBound s (w.propOf o) o
+    ({ s1 with its := fun i => if i = s.n then some { prop := w.propOf o, recv := o, args := a } else s1.its i, n := s.n + 1 }, [], .fuel)
+  | .propagate o d =>
+    (setBound s (w.propOf o) o, [(d, o)], .done)
+  | .advance it k =>
+    match s.its it with
+    | none => (s, [], .err .value)
+    | some I =>
+      let now := (s.bound I.prop).getD I.recv
+      -- first `next`: the dates, from the orbit bound now
+      let I1 : Iterator := if I.started then I else
+        let r := iterDates w fuel now I.args
+        { I with started := true, remaining := r.dates, fin := r.fin, locked := if w.kind = .num then some now else none }
+      let src := I1.locked.getD now
+      let taken := I1.remaining.take k
+      let I2 : Iterator := { I1 with remaining := I1.remaining.drop k }
+      ({ s with its := fun i => if i = it then some I2 else s.its i }, taken.map (fun d => (d, src)),
+        if k ≤ I1.remaining.length then .fuel else I1.fin)
+
+def irun (w : IWorld) (fuel : Nat) : ISt → List IOp → ISt
+  | s, [] => s
+  | s, op :: r => irun w fuel (istep w fuel s op).1 r
+
 end BeyondVerif.Iter
